@@ -2455,3 +2455,131 @@ def hd3(m, run):
         raise AnalysisError('%s: interpreter met an unsupported construct: %s' % (fs.key, ex))
     run.ob('HD3.hodograph-on-recorder-shape', fs.key, why is None, 'S_u, S_v, S_uv keep the parametrisation; degrees, knots and nets of their own differentiated directions' if why is None else why,
            'geomdl/operations.py:%d in %s' % (fs.node.lineno, fs.key))
+
+
+# ====================================================================================== C07: decomposition on recorder shapes
+def dc2(m, run):
+    """DC2: operations.decompose_curve / decompose_surface interpreted on recorder shapes whose knots are order tokens (repeated interior
+    knots included), the split functions replaced by stubs that cut the knot vector of their own direction at the requested parameter:
+    every distinct interior knot of a requested direction is split at exactly once, in ascending order, on the piece that still contains
+    it; other directions are never split; the pieces are returned in parameter order (u-major for 'uv') and the input is never handed to a split"""
+    def kvec(p, interior):
+        return [Ord(0)] * (p + 1) + [Ord(r) for r in interior] + [Ord(max(interior) + 1 if interior else 1)] * (p + 1)
+
+    def ranks(kv):
+        return [k.rank for k in kv]
+
+    # ---- curve
+    fc = m.func('operations.decompose_curve')
+    bad = []
+    cases = [(2, []), (2, [1]), (3, [1, 2, 3]), (3, [1, 2, 2, 3]), (3, [1, 1, 1]), (2, [1, 1, 2, 2])]
+    for p, interior in cases:
+        made, calls = [], []
+        obj = rec_shape(('BSpline', 'Curve'), made, dict(degree=p, knotvector=kvec(p, interior), pdimension=1, rational=False, dimension=3), {})
+
+        def split_curve(sk, node, crv, *a, _p=p, **k):
+            prm = k.get('param', a[0] if a else None)
+            calls.append((crv, prm))
+            if not isinstance(prm, Ord):
+                raise Violation('DC2', 'split_curve is asked to split at %r, not at a knot of the curve' % (prm,), node)
+            kv = crv._a['knotvector']
+            if not (kv[0].rank < prm.rank < kv[-1].rank):
+                raise Violation('DC2', 'split_curve is asked to split at the edge of the domain of the remaining piece (knot ranks %s, parameter rank %s): a repeated interior knot is consumed by one split'
+                                % (ranks(kv), prm.rank), node)
+            left = rec_shape(('BSpline', 'Curve'), made, dict(crv._a, knotvector=[x for x in kv if x.rank < prm.rank] + [Ord(prm.rank)] * (_p + 1), _piece=(kv[0].rank, prm.rank)), {}, 'split')
+            right = rec_shape(('BSpline', 'Curve'), made, dict(crv._a, knotvector=[Ord(prm.rank)] * (_p + 1) + [x for x in kv if x.rank > prm.rank], _piece=(prm.rank, kv[-1].rank)), {}, 'split')
+            return [left, right]
+        ab = dict(STD_ABSTRACTED)
+        ab[('operations', 'split_curve')] = Py(split_curve, 'split_curve')
+        sk = SK(m, ab)
+        why = None
+        try:
+            out = sk.call(fc, [obj], {})
+            distinct = sorted(set(interior))
+            if any(c is obj for c, _ in calls):
+                why = 'the input curve itself is handed to split_curve (the work is done on a copy)'
+            elif [prm.rank for _, prm in calls] != distinct:
+                why = 'splits at the knot ranks %s, the distinct interior knots are %s' % ([prm.rank for _, prm in calls], distinct)
+            elif not isinstance(out, list) or len(out) != len(distinct) + 1:
+                why = '%r pieces for %d distinct interior knots' % (len(out) if isinstance(out, list) else out, len(distinct))
+            else:
+                bounds = [0] + distinct + [max(interior) + 1 if interior else 1]
+                for i, piece in enumerate(out):
+                    kv = piece._a['knotvector']
+                    if (kv[0].rank, kv[-1].rank) != (bounds[i], bounds[i + 1]) or any(kv[0].rank < x.rank < kv[-1].rank for x in kv):
+                        why = 'piece %d spans the knot ranks %s; expected the Bezier segment [%s, %s]' % (i, ranks(kv), bounds[i], bounds[i + 1])
+                        break
+        except Violation as v:
+            why = '%s %s' % (v.msg, v.where())
+        except Unsupported as ex:
+            raise AnalysisError('%s: interpreter met an unsupported construct: %s' % (fc.key, ex))
+        if why:
+            bad.append(((p, interior), why))
+    run.ob('DC2.decomposition-on-recorder-shapes', '%s :: %d knot patterns (simple and repeated interior knots)' % (fc.key, len(cases)), not bad,
+           'one split per distinct interior knot, ascending, on the remaining piece; Bezier segments in parameter order' if not bad else
+           'degree %d, interior knot ranks %s: %s   [%d of %d patterns]' % (bad[0][0][0], bad[0][0][1], bad[0][1], len(bad), len(cases)), 'geomdl/operations.py:%d in %s' % (fc.node.lineno, fc.key))
+    # ---- surface
+    fs = m.func('operations.decompose_surface')
+    bad = []
+    scases = [((2, 1), ([1, 2], [1])), ((2, 2), ([1, 1], [])), ((1, 3), ([], [1, 2, 2])), ((2, 2), ([1], [1, 2, 3]))]
+    n = 0
+    for (p, q), (iu, iv) in scases:
+        for ddir in ('u', 'v', 'uv', None):
+            n += 1
+            made, calls = [], []
+            obj = rec_shape(('BSpline', 'Surface'), made, dict(degree=[p, q], degree_u=p, degree_v=q, knotvector=[kvec(p, iu), kvec(q, iv)], pdimension=2, rational=False, dimension=3), {})
+
+            def splitter(d):
+                def f(sk, node, srf, *a, _d=d, **k):
+                    prm = k.get('param', a[0] if a else None)
+                    calls.append((_d, srf, prm))
+                    kvs = srf._a['knotvector']
+                    kv = kvs[_d]
+                    deg = srf._a['degree'][_d]
+                    if not isinstance(prm, Ord) or not (kv[0].rank < prm.rank < kv[-1].rank):
+                        raise Violation('DC2', 'split_surface_%s is asked to split at %r; the %s-knots of that piece have the ranks %s' % ('uv'[_d], prm, 'uv'[_d], ranks(kv)), node)
+                    lkv = [x for x in kv if x.rank < prm.rank] + [Ord(prm.rank)] * (deg + 1)
+                    rkv = [Ord(prm.rank)] * (deg + 1) + [x for x in kv if x.rank > prm.rank]
+                    mk = lambda nk: rec_shape(('BSpline', 'Surface'), made, dict(srf._a, knotvector=[nk if i == _d else list(kvs[i]) for i in range(2)]), {}, 'split')
+                    return [mk(lkv), mk(rkv)]
+                return Py(f, 'split_surface_' + 'uv'[d])
+            ab = dict(STD_ABSTRACTED)
+            ab[('operations', 'split_surface_u')] = splitter(0)
+            ab[('operations', 'split_surface_v')] = splitter(1)
+            sk = SK(m, ab)
+            why = None
+            try:
+                out = sk.call(fs, [obj], {} if ddir is None else {'decompose_dir': ddir})
+                want_dirs = 'uv' if ddir is None else ddir
+                du, dv = sorted(set(iu)) if 'u' in want_dirs else [], sorted(set(iv)) if 'v' in want_dirs else []
+                bu = [0] + du + [max(iu) + 1 if iu else 1]
+                bv = [0] + dv + [max(iv) + 1 if iv else 1]
+                if any(s is obj for _, s, _ in calls):
+                    why = 'the input surface itself is handed to a split function (the work is done on a copy)'
+                elif 'u' not in want_dirs and any(d == 0 for d, _, _ in calls):
+                    why = "decompose_dir=%r splits along u" % ddir
+                elif 'v' not in want_dirs and any(d == 1 for d, _, _ in calls):
+                    why = "decompose_dir=%r splits along v" % ddir
+                elif not isinstance(out, list) or len(out) != (len(bu) - 1) * (len(bv) - 1):
+                    why = "decompose_dir=%r returns %r patches; %d x %d Bezier patches expected" % (ddir, len(out) if isinstance(out, list) else out, len(bu) - 1, len(bv) - 1)
+                else:
+                    k_ = 0
+                    for a in range(len(bu) - 1):
+                        for b in range(len(bv) - 1):
+                            ku, kv_ = out[k_]._a['knotvector']
+                            if (ku[0].rank, ku[-1].rank, kv_[0].rank, kv_[-1].rank) != (bu[a], bu[a + 1], bv[b], bv[b + 1]):
+                                why = "decompose_dir=%r: patch %d spans u ranks [%s, %s] x v ranks [%s, %s]; expected [%s, %s] x [%s, %s] (u-major order)" % (
+                                    ddir, k_, ku[0].rank, ku[-1].rank, kv_[0].rank, kv_[-1].rank, bu[a], bu[a + 1], bv[b], bv[b + 1])
+                                break
+                            k_ += 1
+                        if why:
+                            break
+            except Violation as v:
+                why = '%s %s' % (v.msg, v.where())
+            except Unsupported as ex:
+                raise AnalysisError('%s: interpreter met an unsupported construct: %s' % (fs.key, ex))
+            if why:
+                bad.append((((p, q), (iu, iv), ddir), why))
+    run.ob('DC2.decomposition-on-recorder-shapes', '%s :: %d (knot pattern, decompose_dir) cases' % (fs.key, n), not bad,
+           "only the requested directions are split, once per distinct interior knot; patches in u-major parameter order" if not bad else
+           'degrees %s, interior knot ranks %s: %s   [%d of %d cases]' % (bad[0][0][0], bad[0][0][1], bad[0][1], len(bad), n), 'geomdl/operations.py:%d in %s' % (fs.node.lineno, fs.key))
